@@ -306,6 +306,7 @@ var profiles = map[string]profile{
 }
 
 type gen struct {
+	variant int // > 0 in the sweep: the (variant-1)-th option of every choice a spoil class makes; 0: random
 	// abstract state the generator assumes the history has reached (authority messages taken to succeed)
 	absProto map[string]bool
 	absCC    map[string]bool
@@ -394,25 +395,31 @@ func (g *gen) throughPaymaster(f *fwdSpec, igp sim.IGP) {
 }
 
 // spoil makes a forwarding invalid or mismatched in one way.
-func (g *gen) spoil(f *fwdSpec) string {
+func (g *gen) spoil(f *fwdSpec) string { return g.spoilClass(f, g.r.Intn(15)) }
+
+// spoilClasses is the number of classes spoilClass knows.
+const spoilClasses = 15
+
+// spoilClass applies one given class (the sweep at the head of some families visits every class for every route).
+func (g *gen) spoilClass(f *fwdSpec, class int) string {
 	r := g.r
-	switch r.Intn(15) {
+	switch class {
 	case 14:
 		if f.kind == "hyp" {
 			// a max fee the SDK refuses to put into a coin set, or harmless oddities of fee and gas limit
-			f.feeDenom = rng.Pick(r, []string{"1bad", "x", "a b", "", sim.USDC, "ufoo", sim.USDC})
-			f.feeAmt = rng.Pick(r, []*big.Int{big.NewInt(1), big.NewInt(-1), big.NewInt(0), new(big.Int).Lsh(big.NewInt(1), 255), big.NewInt(-1000000)})
-			f.gas = rng.Pick(r, []*big.Int{big.NewInt(0), big.NewInt(-5), new(big.Int).Lsh(big.NewInt(1), 255)})
+			f.feeDenom = pickV(g, []string{"1bad", "x", "a b", "", sim.USDC, "ufoo", sim.USDC})
+			f.feeAmt = pickV(g, []*big.Int{big.NewInt(1), big.NewInt(-1), big.NewInt(0), new(big.Int).Lsh(big.NewInt(1), 255), big.NewInt(-1000000)})
+			f.gas = pickV(g, []*big.Int{big.NewInt(0), big.NewInt(-5), new(big.Int).Lsh(big.NewInt(1), 255)})
 			return "hyp-odd-max-fee"
 		}
-		f.pass = r.Bytes(rng.Pick(r, []int{1, 100, 1200}))
+		f.pass = r.Bytes(pickV(g, []int{1, 100, 1200}))
 		return "passthrough"
 	case 0:
-		f.pid = rng.Pick(r, []int32{0, 1, 5, 99, -1})
+		f.pid = pickV(g, []int32{0, 1, 5, 99, -1})
 		return "bad-pid"
 	case 1: // attributes of another protocol
 		others := map[string][]int32{"cctp": {3, 4}, "hyp": {2, 4}, "internal": {2, 3}}
-		f.pid = rng.Pick(r, others[f.kind])
+		f.pid = pickV(g, others[f.kind])
 		return "mismatch"
 	case 2:
 		f.nilAttrs = true
@@ -422,7 +429,7 @@ func (g *gen) spoil(f *fwdSpec) string {
 			f.recipient = nil
 			return "cctp-empty-recipient"
 		}
-		f.recipient = r.Bytes(rng.Pick(r, []int{0, 5, 31, 33}))
+		f.recipient = r.Bytes(pickV(g, []int{31, 0, 5, 33}))
 		return "short-recipient"
 	case 4:
 		if f.kind == "cctp" {
@@ -433,10 +440,10 @@ func (g *gen) spoil(f *fwdSpec) string {
 		return "hyp-noble-domain"
 	case 5:
 		if f.kind == "hyp" {
-			f.token = r.Bytes(rng.Pick(r, []int{0, 8, 31, 33}))
+			f.token = r.Bytes(pickV(g, []int{31, 0, 8, 33}))
 			return "hyp-bad-token-len"
 		}
-		f.to = rng.Pick(r, []string{"", "noble1invalid", "cosmos1hsk6jryyqjfhp5dhc55tc9jtckygx0eph6dd02"})
+		f.to = pickV(g, []string{"", "noble1invalid", "cosmos1hsk6jryyqjfhp5dhc55tc9jtckygx0eph6dd02"})
 		f.kind, f.pid = "internal", 4
 		return "internal-bad-recipient"
 	case 6:
@@ -447,7 +454,7 @@ func (g *gen) spoil(f *fwdSpec) string {
 				for _, d := range g.w.Denoms {
 					ids = append(ids, g.w.S.HypTokens[d])
 				}
-				f.token, f.domain = []byte(rng.Pick(r, ids)), 1
+				f.token, f.domain = []byte(pickV(g, ids)), 1
 				return "hyp-some-existing-token"
 			}
 			f.token = r.Bytes(32)
@@ -457,14 +464,14 @@ func (g *gen) spoil(f *fwdSpec) string {
 		return "internal-self"
 	case 7:
 		if f.kind == "hyp" {
-			f.hook = r.Bytes(rng.Pick(r, []int{1, 31, 33}))
+			f.hook = r.Bytes(pickV(g, []int{31, 1, 33}))
 			return "hyp-bad-hook"
 		}
 		f.kind, f.pid, f.to = "internal", 4, strings.ToUpper(sim.OrbiterAddr().String())
 		return "internal-self-upper"
 	case 8:
 		if f.kind == "hyp" {
-			f.metadata = rng.Pick(r, []string{"0x1", "zz", "0xzz", "1234"})
+			f.metadata = pickV(g, []string{"0x1", "zz", "0xzz", "1234"})
 			return "hyp-bad-metadata"
 		}
 		f.kind, f.pid, f.to = "internal", 4, sim.DustAddr().String()
@@ -489,9 +496,18 @@ func (g *gen) spoil(f *fwdSpec) string {
 		f.kind, f.pid, f.to = "internal", 4, strings.ToUpper(g.a.users[0].Bech)
 		return "internal-upper-recipient"
 	default:
-		f.pass = r.Bytes(rng.Pick(r, []int{1, 100, 1200}))
+		f.pass = r.Bytes(pickV(g, []int{1, 100, 1200}))
 		return "passthrough"
 	}
+}
+
+// pickV chooses at random, or - in the sweep at the head of a family - the variant-th option (the lists put the
+// near misses first).
+func pickV[T any](g *gen, xs []T) T {
+	if g.variant > 0 {
+		return xs[(g.variant-1)%len(xs)]
+	}
+	return rng.Pick(g.r, xs)
 }
 
 func (g *gen) amount() *big.Int {
@@ -800,7 +816,14 @@ func (g *gen) genMsg() world.Msg {
 		if pool == nil {
 			pool = []string{"0"}
 		}
+		// identifiers that are valid for ANOTHER protocol (a channel id, a domain, a free name): valid nowhere else
+		foreign := map[string][]string{"PROTOCOL_CCTP": {"channel-0", "channel-7", "noble", "other"}, "PROTOCOL_HYPERLANE": {"channel-1", "channel-0", "noble"},
+			"PROTOCOL_IBC": {"1", "0", "noble", "77"}}[m.ID]
 		for i := 0; i < n; i++ {
+			if len(foreign) > 0 && r.Chance(12) {
+				m.IDs = append(m.IDs, rng.Pick(r, foreign))
+				continue
+			}
 			m.IDs = append(m.IDs, rng.Pick(r, pool))
 		}
 		if r.Chance(3) {
@@ -830,7 +853,7 @@ func (g *gen) genQuery() world.Query {
 		q.ID = rng.Pick(r, append(protoNames, "x"))
 	case "IsCrossChainPaused":
 		q.ID = rng.Pick(r, []string{"PROTOCOL_CCTP", "PROTOCOL_HYPERLANE", "PROTOCOL_INTERNAL"})
-		q.CP = rng.Pick(r, []string{"0", "1", "2", "noble", "01", ""})
+		q.CP = rng.Pick(r, []string{"0", "1", "2", "noble", "01", "", "channel-0", "channel-7", "other", "77"})
 	case "IsActionPaused":
 		q.ID = rng.Pick(r, []string{"ACTION_FEE", "ACTION_SWAP", "x"})
 	}
@@ -888,6 +911,7 @@ func collectStrings(pl *core.Payload, ics *world.ICS20) (b []string, i []string)
 type worldRunner struct {
 	pinFirst bool // the next history begins with the witness of open finding 17
 	lastOps  []world.Op // C19: the previous case's history, replayed on a discarded branch between two replays
+	sweepNext int       // >= 0: the next (route, spoil class) pair of the sweep at the head of the family; -1: none
 	swap bool // the swap controller is registered on the instrumented instance
 	w   *world.W
 	a   actors
